@@ -224,3 +224,98 @@ def init_eval(prog):
     except PyRaise as pr:
         out["raises"] = "raises %s (%s)" % (pr.name, pr.msg)
     return out
+
+
+class _Requests:
+    """stand-in for the optional `requests` library: records what it is asked for"""
+    def __init__(self, log, docs):
+        self.log, self.docs = log, docs
+
+    def get(self, uri, *a, **k):
+        self.log.append(("requests", uri))
+        docs = self.docs
+
+        class Resp:
+            def json(self_):
+                return docs[("requests", uri)]
+        return Resp()
+
+    def __bool__(self):
+        return True
+
+
+class _UrlopenResult:
+    def __init__(self, data):
+        self.data = data
+
+    def read(self):
+        return self.data
+
+    def __enter__(self):
+        return self
+
+    def __exit__(self, *a):
+        return False
+
+
+def selection_eval(prog):
+    """resolve_remote(uri) for every combination of scheme x registered handlers x `requests` importable or not: which of the three
+    retrievers (handler, requests, urlopen) is asked, with which URL, what comes back, and whether it is filed in the store."""
+    import json as _json
+    from urllib.parse import urlsplit
+    out = {"handler-first": None, "requests-http-only": None, "urlopen-otherwise": None, "filed": None}
+    try:
+        uris = {"sch": "sch://host/doc", "http": "http://host/doc", "https": "https://host/doc", "ftp": "ftp://host/doc", "file": "file:///tmp/doc",
+                "HTTP": "HTTP://host/doc", "urn": "urn:example:doc"}
+        for hset in ((), ("sch",), ("http",), ("https", "ftp"), ("sch", "http", "https", "ftp", "file", "urn")):
+            for have_requests in (True, False):
+                for cache_remote in (True, False):
+                    for sk, uri in uris.items():
+                        log = []
+                        docs = {("handler", uri): {"via": "handler"}, ("requests", uri): {"via": "requests"}}
+
+                        def handler(u, log=log, docs=docs):
+                            log.append(("handler", u))
+                            return docs[("handler", u)]
+
+                        def urlopen(u, *a, log=log, **k):
+                            log.append(("urlopen", u))
+                            return _UrlopenResult(_json.dumps({"via": "urlopen", "text": "é"}).encode("utf-8"))
+                        ev, o, R, st = _resolver(prog, {h: handler for h in hset}, cache_remote=cache_remote)
+                        ev.ext["requests"] = _Requests(log, docs) if have_requests else ImportError("requests")
+                        ev.ext["urllib.request.urlopen"] = urlopen
+                        ev.ext["urllib.request"] = type("M", (), {"urlopen": staticmethod(urlopen)})
+                        scheme = sk.lower()
+                        want = "handler" if scheme in hset else ("requests" if scheme in ("http", "https") and have_requests else "urlopen")
+                        label = "%s with handlers for %s, requests %s" % (uri, list(hset) or "nothing", "importable" if have_requests else "not installed")
+                        try:
+                            got = ev.call_func(ev.find_method(R, "resolve_remote"), [o, uri], {})
+                        except PyRaise as pr:
+                            clause = {"handler": "handler-first", "requests": "requests-http-only", "urlopen": "urlopen-otherwise"}[want]
+                            out[clause] = out[clause] or "%s: raises %s (%s)" % (label, pr.name, pr.msg)
+                            continue
+                        if log != [(want, uri)]:
+                            if want == "handler" or any(l[0] == "handler" for l in log):
+                                clause = "handler-first"
+                            elif want == "requests" or any(l[0] == "requests" for l in log):
+                                clause = "requests-http-only"
+                            else:
+                                clause = "urlopen-otherwise"
+                            out[clause] = out[clause] or "%s: asked %r, expected exactly one retrieval through %s with the URL as given" % (label, log, want)
+                            continue
+                        wantdoc = {"via": want} if want != "urlopen" else {"via": "urlopen", "text": "é"}
+                        if got != wantdoc or (want != "urlopen" and got is not docs[(want, uri)]):
+                            clause = {"handler": "handler-first", "requests": "requests-http-only", "urlopen": "urlopen-otherwise"}[want]
+                            out[clause] = out[clause] or "%s: returns %r, expected what %s delivered" % (label, got, want)
+                        inner = st.attrs["store"]
+                        if cache_remote and not any(v is got for v in inner.values()):
+                            out["filed"] = out["filed"] or "%s: with cache_remote on, the document is not filed in the store" % label
+                        elif cache_remote and uri not in inner and urlsplit(uri).geturl() not in inner:
+                            out["filed"] = out["filed"] or "%s: filed under %r, not under the URL retrieved" % (label, sorted(inner))
+                        elif not cache_remote and inner:
+                            out["filed"] = out["filed"] or "%s: with cache_remote off, the store is written (%r)" % (label, sorted(inner))
+    except Undecided:
+        return None
+    except PyRaise as pr:
+        out["raises"] = "raises %s (%s)" % (pr.name, pr.msg)
+    return out
